@@ -115,7 +115,8 @@ func PrepareC05(ctx *Ctx) (*Prepared, error) {
 }
 
 func PrepareC06(ctx *Ctx) (*Prepared, error) {
-	return prepareCodec(ctx, codecSpec{profile: "lite", harnesses: []string{"VH_C06"}})
+	p, err := prepareCodec(ctx, codecSpec{profile: "lite", harnesses: []string{"VH_C06"}})
+	return withEvo(ctx, p, err, "VH_C06X", "c06x")
 }
 
 func PrepareC07(ctx *Ctx) (*Prepared, error) {
@@ -151,7 +152,7 @@ func PrepareC08(ctx *Ctx) (*Prepared, error) {
 	if p != nil {
 		p.AllRuns = true
 	}
-	return p, err
+	return withEvo(ctx, p, err, "VH_C08X", "c08x")
 }
 
 // optionSets enumerates generator option combinations: quick = base, each
